@@ -82,6 +82,9 @@ class Trace:
     # one dict per ctx.wait_for_event CALL a step body made, in call order: what the body asked for (harness-side label of
     # the wait, type, requirement, timeout, waiter_event uid), when, and how the call ended (got / timeout / suspended)
     wait_calls: list = field(default_factory=list)
+    # what the workflow object built from the @catch_error declarations once run() had validated it:
+    # {"handlers": [names], "handler_for_step": {step: handler}} (None: rejected, or never reached)
+    handler_table: Any = None
 
 
 class RecordingPolicy:
@@ -644,6 +647,8 @@ def run_spec(spec: dict, seed: int, replay_actions: list[int] | None = None, max
                 return
             run.handler = handler
             run.trace.handler = handler
+            run.trace.handler_table = {"handlers": sorted(getattr(wf, "_catch_error_handlers", {}) or {}),
+                                       "handler_for_step": dict(getattr(wf, "_handler_for_step", {}) or {})}
 
             async def consume() -> None:
                 try:
